@@ -16,6 +16,8 @@ Idents == << <<47, 76, 71, 70, 53, 69, 51, 54, 48>>,                            
              <<47, 65, 66, 99, 48, 92, 50, 120>>,                                      \* /ABc0\2x   (escape + id)
              <<47, 75, 70, 77, 53, 75, 65, 73, 70, 65, 45, 77, 65, 49, 48, 53, 67>>,   \* /KFM5KAIFA-MA105C
              <<47, 65, 66, 67, 53, 49, 50, 51, 52, 53, 54, 55, 56, 57, 48, 49, 50, 51, 52, 53, 54>>,  \* 16 id characters
+             <<47, 69, 76, 76, 53, 92, 50, 92, 51, 77, 84, 51, 56, 50>>,                 \* /ELL5\2\3MT382   (two escape sequences)
+             <<47, 88, 77, 88, 53, 92, 50, 92, 51, 92, 87, 76, 71, 66, 66, 70, 70, 66, 50, 51, 49, 51, 49, 52, 50, 51, 57>>,   \* three escapes + 16 id characters
              <<47, 65, 66, 67, 53>>,                                                    \* no identification (tolerated by the pattern)
              <<47, 97, 66, 67, 53, 120>>,                                               \* bad: lower-case first letter
              <<47, 65, 66, 67, 120, 120>>,                                              \* bad: no baud digit
